@@ -161,7 +161,7 @@ func c04Project(out string, views map[int][]c04View) []Obs {
 				ai++
 			} else {
 				if ti < len(parts) {
-					rec = append(rec, A(strings.TrimSpace(parts[ti])))
+					rec = append(rec, A(parts[ti]))
 				} else {
 					rec = append(rec, A("<missing-part>"))
 				}
